@@ -438,9 +438,8 @@ class SignalTimePDF(
             # Update the time flux profile if its parameter values have changed
             # and recalculate self._I and self._S if an update was actually
             # performed.
-            updated = self._time_flux_profile.set_params(params)
-            if updated:
-                self._S = self._calculate_sum_of_ontime_time_flux_profile_integrals()
+            self._time_flux_profile.set_params(params)
+            self._ensure_S_is_up_to_date()
 
             src_m = src_idxs == src_idx
             idxs = evt_idxs[src_m]
@@ -531,8 +530,9 @@ class SignalTimePDF(
             The dictionary holding the gradients of the probability density
             w.r.t. each global fit parameter.
         """
-        # Check if we have pre-calculated PDF values.
-        if self._pd is not None:
+        # Check if we have pre-calculated PDF values, which are still valid for
+        # the live-time and the time flux profile.
+        if (self._pd is not None) and self._is_S_up_to_date():
             return (self._pd, dict())
 
         pd = self._calculate_pd(
